@@ -477,7 +477,12 @@ impl Schema {
                     None,
                 );
                 let mut streams = Vec::new();
-                subscription.collect_streams(&schema, &ctx, &mut streams, &request.root_value);
+                // no subscription resolver runs in introspection-only mode
+                if schema.0.env.registry.introspection_mode != IntrospectionMode::IntrospectionOnly
+                    && env.introspection_mode != IntrospectionMode::IntrospectionOnly
+                {
+                    subscription.collect_streams(&schema, &ctx, &mut streams, &request.root_value);
+                }
 
                 let mut stream = futures_util::stream::select_all(streams);
                 while let Some(resp) = stream.next().await {
